@@ -316,7 +316,11 @@ class CSSConverter(CSSScraper, BaseDocumentConverter):
 
     def get_new_url(self, url, base_url=None):
         if base_url:
-            url = wpull.url.urljoin(base_url, url)
+            try:
+                url = wpull.url.urljoin(base_url, url)
+            except ValueError:
+                # A link that is not a URL is left as it is.
+                return url
 
         try:
             url_record = self._url_table.get_one(url)
